@@ -143,3 +143,247 @@ class SqlModel:
             except sqlite3.Error as e:
                 raise Broken("schema statement rejected by SQLite: %s: %r" % (e, s[:80]))
         return db
+
+
+# ====================================================================== parameters, schema, C-side sites
+_TOK = re.compile(r"\s*(\?\d*|[A-Za-z_][A-Za-z_0-9]*(?:\.[A-Za-z_][A-Za-z_0-9]*)?|'(?:[^']|'')*'|\d+|<>|!=|<=|>=|\|\||.)", re.S)
+
+
+def sql_tokens(sql):
+    return [m.group(1) for m in _TOK.finditer(sql) if m.group(1).strip()]
+
+
+def parse_params(sql):
+    """-> list of {n, column, context} for each parameter *occurrence* (SQLite numbering rules)."""
+    toks = sql_tokens(sql)
+    low = [t.lower() for t in toks]
+    out = []
+    largest = 0
+    # insert column list
+    ins_cols = None
+    if low and low[0] in ("insert", "replace"):
+        try:
+            i = low.index("into")
+            j = i + 2
+            if j < len(toks) and toks[j] == "(":
+                k = toks.index(")", j)
+                ins_cols = [t for t in toks[j + 1:k] if t != ","]
+                body_start = k + 1
+            else:
+                body_start = j
+        except ValueError:
+            body_start = 0
+    else:
+        body_start = 0
+    # position inside the first values(...)/select-list after the column list
+    list_pos = None
+    depth = 0
+    in_list = False
+    list_depth = None
+    for idx, t in enumerate(toks):
+        lt = low[idx]
+        if idx >= body_start and ins_cols is not None and not in_list and list_pos is None and lt in ("values", "select"):
+            in_list = True
+            list_pos = 0
+            list_depth = depth + (1 if lt == "values" else 0)
+            continue
+        if t == "(":
+            depth += 1
+        elif t == ")":
+            depth -= 1
+            if in_list and depth < list_depth:
+                in_list = False
+        elif in_list and t == "," and depth == list_depth:
+            list_pos += 1
+        elif in_list and lt == "from" and depth == list_depth:
+            in_list = False
+        if t.startswith("?"):
+            if len(t) > 1:
+                n = int(t[1:])
+            else:
+                n = largest + 1
+            largest = max(largest, n)
+            col, ctx = None, "other"
+            if in_list and ins_cols is not None and depth == list_depth and list_pos is not None and list_pos < len(ins_cols):
+                col, ctx = ins_cols[list_pos], "insert"
+            elif idx >= 2 and toks[idx - 1] in ("=", "==") and re.match(r"^[A-Za-z_]", toks[idx - 2]):
+                col, ctx = toks[idx - 2].split(".")[-1], ("set" if _in_set_clause(low, idx) else "where")
+            out.append({"n": n, "column": col, "context": ctx})
+    return out
+
+
+def _in_set_clause(low, idx):
+    last_set = max((i for i in range(idx) if low[i] == "set"), default=-1)
+    last_where = max((i for i in range(idx) if low[i] == "where"), default=-1)
+    return last_set > last_where
+
+
+def statement_target(sql):
+    toks = [t.lower() for t in sql_tokens(sql)]
+    if not toks:
+        return None
+    if toks[0] in ("insert", "replace") and "into" in toks:
+        return toks[toks.index("into") + 1]
+    if toks[0] == "update":
+        return toks[1]
+    if toks[0] == "delete" and "from" in toks:
+        return toks[toks.index("from") + 1]
+    return None
+
+
+class Schema:
+    def __init__(self, sqlm):
+        self.db = sqlm.open_db()
+        self.ddl = sqlm.schema_statements()
+        db = self.db
+        self.tables = {}
+        self.views = {}
+        self.triggers = {}
+        for typ, name, tbl, sql in db.execute("select type, name, tbl_name, sql from sqlite_master"):
+            if typ == "table" and not name.startswith("sqlite_"):
+                cols = {}
+                for cid, cname, ctype, notnull, dflt, pk in db.execute("pragma table_info(%s)" % name):
+                    cols[cname] = {"type": ctype, "notnull": bool(notnull), "pk": pk, "default": dflt}
+                uniq = []
+                for seq, iname, unique, origin, partial in db.execute("pragma index_list(%s)" % name):
+                    if unique:
+                        uniq.append(tuple(r[2] for r in db.execute("pragma index_info(%s)" % iname)))
+                pkcols = tuple(c for c, v in sorted(cols.items(), key=lambda kv: kv[1]["pk"]) if v["pk"])
+                fks = {}
+                for row in db.execute("pragma foreign_key_list(%s)" % name):
+                    fid, seq, reftable, frm, to, on_update, on_delete, match = row
+                    fk = fks.setdefault(fid, {"table": reftable, "from": [], "to": [], "on_delete": on_delete})
+                    fk["from"].append(frm)
+                    fk["to"].append(to)
+                self.tables[name] = {"columns": cols, "unique": uniq, "pk": pkcols, "fks": list(fks.values()), "sql": sql}
+            elif typ == "view":
+                self.views[name] = sql
+            elif typ == "trigger":
+                self.triggers[name] = {"table": tbl, "sql": sql}
+
+    def unique_sets(self, table):
+        t = self.tables[table]
+        s = {tuple(sorted(u)) for u in t["unique"]}
+        if t["pk"]:
+            s.add(tuple(sorted(t["pk"])))
+        return s
+
+    def compile(self, sql, nparams):
+        """Type-check a statement against the schema with SQLite's own compiler. -> (ok, message, output columns)."""
+        try:
+            cur = self.db.execute("explain " + sql, [None] * nparams)
+            cur.fetchall()
+        except sqlite3.Error as e:
+            return False, str(e), None
+        cols = None
+        if sql.strip().lower().startswith("select"):
+            try:
+                cur = self.db.execute(sql, [None] * nparams)
+                cols = [d[0] for d in cur.description]
+                cur.fetchall()
+            except sqlite3.Error as e:
+                return False, str(e), None
+        return True, "", cols
+
+
+BIND_KIND = {"sqlite3_bind_int": "int", "sqlite3_bind_int64": "int", "sqlite3_bind_text16": "text16", "sqlite3_bind_text": "text",
+             "sqlite3_bind_double": "double", "sqlite3_bind_blob": "blob", "sqlite3_bind_null": "null"}
+COLUMN_KIND = {"sqlite3_column_int": "int", "sqlite3_column_int64": "int", "sqlite3_column_text16": "text16",
+               "sqlite3_column_text": "text", "sqlite3_column_double": "double", "sqlite3_column_blob": "blob",
+               "sqlite3_column_bytes": "bytes", "sqlite3_column_bytes16": "bytes16", "sqlite3_column_type": "type"}
+
+
+def local_consts(fn):
+    """did -> constant for locals initialised once with a constant and never reassigned; did -> stmt field for handles."""
+    ints, stmts, bad = {}, {}, set()
+    for (b, i, r, n) in fn.eval_sites():
+        if n.get("k") == "decl":
+            for v in n.get("vars", []):
+                init = v.get("init")
+                if init is None:
+                    continue
+                c = const(init)
+                if c is not None:
+                    ints[v["did"]] = c
+                m = _member_name(init)
+                if m and (m.endswith("_stmt") or m == "stmt"):
+                    stmts[v["did"]] = m
+        elif n.get("k") == "asg":
+            l = strip(n.get("lhs"))
+            if isinstance(l, dict) and l.get("k") == "ref" and "did" in l:
+                m = _member_name(n.get("rhs"))
+                if n.get("op") == "=" and m and (m.endswith("_stmt") or m == "stmt") and l["did"] not in stmts:
+                    stmts[l["did"]] = m
+                else:
+                    bad.add(l["did"])
+        elif n.get("k") == "un" and n.get("op") in ("pre++", "pre--", "post++", "post--"):
+            l = strip(n.get("e"))
+            if isinstance(l, dict) and l.get("k") == "ref" and "did" in l:
+                bad.add(l["did"])
+    # handles copied from other local handles (sqlite3_stmt *_stmt = (stmt))
+    changed = True
+    while changed:
+        changed = False
+        for (b, i, r, n) in fn.eval_sites("decl"):
+            for v in n.get("vars", []):
+                init = strip(v.get("init"))
+                if isinstance(init, dict) and init.get("k") == "ref" and init.get("did") in stmts and v["did"] not in stmts:
+                    stmts[v["did"]] = stmts[init["did"]]
+                    changed = True
+                if isinstance(init, dict) and init.get("k") == "ref" and init.get("did") in ints and v["did"] not in ints \
+                        and v["did"] not in bad:
+                    ints[v["did"]] = ints[init["did"]]
+                    changed = True
+    for d in bad:
+        ints.pop(d, None)
+    return ints, stmts
+
+
+def fold(n, ints):
+    """Constant value of an index expression using single-assignment local constants."""
+    n = strip(n)
+    if not isinstance(n, dict):
+        return None
+    c = const(n)
+    if c is not None:
+        return c
+    if n.get("k") == "ref" and n.get("did") in ints:
+        return ints[n["did"]]
+    if n.get("k") == "bin" and n.get("op") in ("+", "-"):
+        a, b = fold(n.get("lhs"), ints), fold(n.get("rhs"), ints)
+        if a is None or b is None:
+            return None
+        return a + b if n["op"] == "+" else a - b
+    return None
+
+
+def stmt_of(n, stmts):
+    n = strip(n)
+    m = _member_name(n)
+    if m:
+        return m
+    if isinstance(n, dict) and n.get("k") == "ref" and n.get("did") in stmts:
+        return stmts[n["did"]]
+    return None
+
+
+def bind_column_sites(prog):
+    """All sqlite3_bind_* / sqlite3_column_* call sites with resolved statement and index."""
+    out = []
+    for fn in prog.all_functions():
+        ints = stmts = None
+        for (b, i, r, n) in fn.calls():
+            c = n.get("callee") or ""
+            if c in BIND_KIND or c in COLUMN_KIND:
+                if ints is None:
+                    ints, stmts = local_consts(fn)
+                args = n.get("args", [])
+                if len(args) < 2:
+                    continue
+                out.append({"fn": fn, "block": b.id, "root": i, "node": n, "api": c,
+                            "kind": BIND_KIND.get(c) or COLUMN_KIND.get(c), "is_bind": c in BIND_KIND,
+                            "stmt": stmt_of(args[0], stmts), "index": fold(args[1], ints),
+                            "value": args[2] if len(args) > 2 else None,
+                            "dtor": args[4] if c in ("sqlite3_bind_text16", "sqlite3_bind_text", "sqlite3_bind_blob") and len(args) > 4 else None,
+                            "macros": n.get("ms") or []})
+    return out
